@@ -136,31 +136,33 @@ Definition pick_sorted (et : Q) (l : list (nat * ent)) : option (nat * ent) :=
 Definition pick_min (et : Q) (l : list (nat * ent)) : option (nat * ent) :=
   first_min ikey_ltb (fun x => eligible et (snd x)) l.
 
+(* now = time.time(); earlier_than = now - age *)
 Definition earlier_than (c : cfg) (now age : Q) : Q := fsub c now age.
+(* if age <= 0: earlier_than = max(earlier_than, self._last_changed_time)      (/repo 5c0d808, ed9e461) *)
+Definition threshold_adj (et age last_changed : Q) : Q :=
+  if Qle_bool age 0 then qmax et last_changed else et.
+Definition threshold (c : cfg) (now age last_changed : Q) : Q :=
+  threshold_adj (earlier_than c now age) age last_changed.
 
 (* ------------------------------------------------------------------ results *)
 Inductive res (T : Type) : Type :=
 | Ok (x : T)
-| Loop        (* the `changed` setter recurses for ever (RecursionError in CPython) *)
 | Bad.        (* ill-formed operation (index out of range, order not an enumeration of the change set) *)
 Arguments Ok {T} x.
-Arguments Loop {T}.
 Arguments Bad {T}.
 Definition bind {A B} (r : res A) (f : A -> res B) : res B :=
-  match r with Ok x => f x | Loop => Loop | Bad => Bad end.
+  match r with Ok x => f x | Bad => Bad end.
 
 (* ------------------------------------------------------------------ the `changed` setter *)
 (* SideState.__setattr__("changed", v): SyncState.updated(ent, side, "changed", v) runs BEFORE _changed is
-   assigned, and may itself assign 0 to the other side (same setter, nested). *)
+   assigned; when the entry leaves the change set and the other side holds a change without an oid, that
+   side is repaired with a plain write `_changed = 0` (no nested setter since /repo ccb41ee). *)
 Definition set_changed (s : side) (v : stamp) (e : ent) : res ent :=
   let o := other s in
   if (truthy v && oid s e) || (truthy (ch o e) && oid o e) then
     Ok (with_ch s v (with_in true e))
   else if truthy (ch o e) && negb (oid o e) then
-    (* discard; ent[o].changed = 0 -> updated(o, "changed", 0) sees the OLD ent[s].changed *)
-    if truthy (ch s e) && oid s e then Ok (with_ch s v (with_ch o (Some 0) (with_in true e)))
-    else if truthy (ch s e) then Loop
-    else Ok (with_ch s v (with_ch o (Some 0) (with_in false e)))
+    Ok (with_ch s v (with_ch o (Some 0) (with_in false e)))
   else Ok (with_ch s v (with_in false e)).
 
 (* SyncEntry.__setattr__("priority", v) with SyncState.updated(key == "priority") *)
@@ -239,7 +241,7 @@ Definition finished (c : cfg) (sd : side) (rel : list bool) (i : nat) (s : st) :
         bind (reset_related c rel l1) (fun l2 => Ok {| ents := l2; last := last s |}))
   end.
 
-(* SyncState.change(age) with time.time() = now; [order] = list(state._changeset) as indices *)
+(* SyncState.change(age) with time.time() = now (the clock reading); [order] = list(state._changeset) as indices *)
 Fixpoint nodupb (l : list nat) : bool :=
   match l with [] => true | x :: r => negb (existsb (Nat.eqb x) r) && nodupb r end.
 Definition member (s : st) (i : nat) : bool :=
@@ -252,7 +254,7 @@ Definition tagged (order : list nat) (s : st) : list (nat * ent) :=
   map (fun i => (i, nth i (ents s) new_ent)) order.
 Definition change (c : cfg) (now age : Q) (order : list nat) (s : st) : res (option nat) :=
   if order_ok order s then
-    Ok (option_map fst (pick_sorted (earlier_than c now age) (tagged order s)))
+    Ok (option_map fst (pick_sorted (threshold c now age (last s)) (tagged order s)))
   else Bad.
 
 (* ------------------------------------------------------------------ operations and the runner *)
@@ -287,7 +289,7 @@ Definition step (c : cfg) (o : op) (s : st) : res (st * option (option nat)) :=
   | ODiscard i => nopick (on_ent i (fun e => Ok (discard_ent e)) s)
   end.
 
-(* run a list of operations; stop at the first Loop/Bad *)
+(* run a list of operations; stop at the first Bad *)
 Fixpoint steps (c : cfg) (ops : list op) (s : st) : res st :=
   match ops with
   | [] => Ok s
@@ -404,28 +406,27 @@ Definition sx_ent (e : ent) : sx :=
 Definition sx_st (s : st) : sx := L [sx_q (last s); sx_list sx_ent (ents s)].
 Definition sx_pick (p : option nat) : sx := sx_opt sx_nat p.
 
-(* per operation: (0 pick-or-() state) | (1) Loop | (2) Bad; nothing after the first non-zero status *)
+(* per operation: (0 pick-or-() state) | (2) Bad; nothing after the first non-zero status *)
 Fixpoint run_ops (c : cfg) (ops : list op) (s : st) : list sx :=
   match ops with
   | [] => []
   | o :: r =>
     match step c o s with
     | Ok (s', p) => L [A 0%N; sx_opt sx_pick p; sx_st s'] :: run_ops c r s'
-    | Loop => [L [A 1%N]]
     | Bad => [L [A 2%N]]
     end
   end.
 
 Definition run (x : sx) : sx :=
   match x with
-  (* (0 now age (entries...)) : change() on a table given in iteration order -> () | (index) *)
-  | L [A 0%N; now; age; tab] =>
-    match un_q now, un_q age, un_list un_tab_ent tab with
-    | Some now, Some age, Some l =>
-      let et := earlier_than (cfg_float 0 0) now age in
+  (* (0 (clock last_changed_time) age (entries...)) : change() on a table given in iteration order *)
+  | L [A 0%N; L [now; lst]; age; tab] =>
+    match un_q now, un_q lst, un_q age, un_list un_tab_ent tab with
+    | Some now, Some lst, Some age, Some l =>
+      let et := threshold (cfg_float 0 0) now age lst in
       L [sx_pick (option_map fst (pick_sorted et (number 0 l)));
          sx_pick (option_map fst (pick_min et (number 0 l)))]
-    | _, _, _ => sx_malformed
+    | _, _, _, _ => sx_malformed
     end
   (* (1 (puntL puntR last0) (ops...)) *)
   | L [A 1%N; L [pl; pr; l0]; ops] =>
